@@ -492,6 +492,7 @@ class Recorder:
         self.sub_t = None
         self.k = 0
         self.after = []  # events recorded after dispose returned / after terminal (filled by checks)
+        self.script = None  # (k, fn): call fn() from inside the k-th notification
 
     # subscription management
     def subscribe(self, obs, **kw):
@@ -528,6 +529,8 @@ class Recorder:
         self.k += 1
         if self.dispose_at is not None and k == self.dispose_at:
             self.dispose()
+        if self.script is not None and k == self.script[0]:
+            self.script[1]()
         if self.raise_at is not None and k == self.raise_at:
             self.w.fired.append((self.w.seq, "subscriber:" + self.name, k))
             raise InjectedFault("subscriber:" + self.name)
